@@ -4,6 +4,7 @@ import (
 	"bytes"
 	"fmt"
 	"math/big"
+	"runtime"
 	"runtime/metrics"
 	"time"
 
@@ -451,6 +452,18 @@ func c06Body(c *mc.Ctx) {
 		return
 	}
 	limit := uint64(1<<20 + 4096*len(data))
+	if grown > limit {
+		// the runtime publishes allocation statistics in batches, so a single reading can include
+		// earlier allocations; a real over-allocation repeats, so re-measure after a GC and keep the minimum
+		for i := 0; i < 3 && grown > limit; i++ {
+			runtime.GC()
+			b := allocBytes()
+			drive.Safe(func() { c06Drive(driver, data, target) })
+			if g := allocBytes() - b; g < grown {
+				grown = g
+			}
+		}
+	}
 	if grown > limit {
 		c.Fail("alloc", c06Drivers[driver], "allocated %d bytes for a %d-byte input (limit %d)", grown, len(data), limit)
 		return
